@@ -210,10 +210,78 @@ def r2_distinct_packages(repo):
     return obs
 
 
+TDA = "src.analysis.type_dependency_analysis.TypeDependencyAnalysis"
+POLY_VISITORS = ("visit_lambda", "visit_func_ref")
+
+
+def poly_expressions_rule(repo, rid):
+    """Java: a lambda expression and a method reference are poly expressions - their type is *taken from* the target
+    type (JLS 15.27.3, 15.13.2), they give javac nothing to infer a type argument from.  If the dependency analysis records
+    such an expression as an inferred node, the erasure mutation treats `new A<>(lambda)` / `foo(lambda)` as inferable and
+    javac answers 'cannot infer type arguments'.  The visitors of these two node kinds therefore add no inferred node
+    (and no edge to one): they only visit their children."""
+    obs = []
+    c = repo.cls(TDA)
+    for vn in POLY_VISITORS:
+        m = c.methods.get(vn)
+        if m is None:
+            obs.append(Ob(rid, "%s:adds-no-inferred-node" % vn, "src/analysis/type_dependency_analysis.py", True,
+                          "not overridden: the default visitor only visits the children"))
+            continue
+        writes = [n for n in iter_own_nodes(m.node) if isinstance(n, (ast.Attribute,)) and n.attr in
+                  ("_inferred_nodes", "type_graph") and isinstance(getattr(n, "_parent", None), (ast.Subscript, ast.Attribute))]
+        helpers = [k for k in calls_in(m.node) if call_name(k) in ("TypeNode", "construct_edge", "_handle_declaration",
+                                                                   "_infer_type_variable_by_ret", "_parameterized_type2node")]
+        ok = not writes and not helpers
+        obs.append(Ob(rid, "%s:adds-no-inferred-node" % vn, _w(m), ok,
+                      "%s must not feed the inference (poly expression): touches %s, calls %s"
+                      % (vn, sorted({src(w) for w in writes}), [call_name(k) for k in helpers])))
+    return obs
+
+
+def r3_poly(repo):
+    return poly_expressions_rule(repo, "C02-R3")
+
+
+def r4_no_primitive_type_arguments(repo):
+    """Java has no primitive type arguments (`Foo<int>`, `(int p) -> ..` for a `Function1<Integer, ..>`): both
+    instantiation helpers box the candidate pool (`_get_available_types(.., primitives=False)`), and that function boxes
+    every candidate when asked to."""
+    obs = []
+    for fn_name in ("instantiate_type_constructor", "instantiate_parameterized_function"):
+        f = repo.fn("src.ir.type_utils." + fn_name)
+        sites = [k for k in calls_in(f.node) if call_name(k) == "_get_available_types"]
+        vals = [const_value(kwarg(k, "primitives", 3)) if kwarg(k, "primitives", 3) is not None else "default (True)"
+                for k in sites]
+        obs.append(Ob("C02-R4", "%s:pool-is-boxed" % fn_name, _w(f), bool(sites) and all(v is False for v in vals),
+                      "candidate pools of %s: primitives=%s (must be False at every site)" % (fn_name, vals)))
+    g = repo.fn("src.ir.type_utils._get_available_types")
+    box = [k for k in calls_in(g.node) if call_name(k) == "box_type"]
+    ok = False
+    if len(box) == 1:
+        conds = [(" ".join(t.split()), pol) for t, pol in _gl(box[0], g.node)]
+        # boxed whenever primitives is false and the candidate can be boxed; candidates skipped before (negative guards of
+        # a `continue`) are not in the pool at all
+        extra = [c_ for c_ in conds if c_[1] is True and c_[0] != "only_regular" and "box_type" not in c_[0]]
+        extra += [c_ for c_ in conds if c_[1] is False and c_[0] != "primitives" and
+                  not (c_[0].startswith("isinstance(") or "isinstance(" in c_[0])]
+        ok = ("primitives", False) in conds and not extra
+    obs.append(Ob("C02-R4", "_get_available_types:boxes-every-candidate-when-asked", _w(g), ok,
+                  "`ptype.box_type()` must apply to every candidate under `not primitives`; %d boxing site(s), guards %s"
+                  % (len(box), conds if len(box) == 1 else "-")))
+    return obs
+
+
+def _gl(node, stop):
+    return [(src(t), p) for t, p in flat_guards(node, stop)]
+
+
 def rules():
     return [
         RuleSpec("C02-R1", "package printed = directory written (per program, per variant)", 15, r1_package_is_path),
         RuleSpec("C02-R2", "distinct package names within a batch (word-pool typestate)", 7, r2_distinct_packages),
+        RuleSpec("C02-R3", "Java poly expressions (lambda, method reference) are no inference sources for the erasure", 2, r3_poly),
+        RuleSpec("C02-R4", "no primitive type arguments: instantiation pools are boxed", 3, r4_no_primitive_type_arguments),
     ]
 
 
